@@ -456,3 +456,25 @@ Definition ent_view (f : cdent) (s : sized) : sview :=
 
 (* the plain options used by the class-K theorems *)
 Definition plain_opts (zip64end : Z) : sopts := mkOpts [] [] zip64end 45 45 [] [] [].
+
+(* ================================================================== domains used by the theorems ====== *)
+(* cursor after a read ending at q *)
+Definition adv (m : mode) (pos q : Z) : Z := match m with Random => pos | Stream => q end.
+
+(* exactly when relic's inference reads a 24-byte descriptor as 24 bytes *)
+Definition dd24_ok (csize usize : Z) : bool :=
+  (usize >=? 4294967295) || negb ((csize / 4294967296) mod 4294967296 =? usize mod 4294967296).
+Definition desc_ok (k : desc_kind) (csize usize : Z) : Prop :=
+  match k with
+  | DNone => True
+  | D16 => 0 <= usize < 4294967295 /\ csize < 4294967296
+  | D24 => 0 <= usize < 2 ^ 64 /\ csize < 2 ^ 63 /\ dd24_ok csize usize = true
+  | D12 | D20 => False
+  end.
+
+Definition sized_of (m : smember) : sized :=
+  mkSized (zlen (sp_local m)) (zlen (sp_desc m)) (m_crc m) (30 + zlen (m_name m) + zlen (sp_lextra m)).
+
+Definition local_ok (m : smember) : Prop :=
+  zlen (m_name m) < 65536 /\ zlen (sp_lextra m) < 65536 /\ Z.land (m_flags m) 8 = 0 /\
+  0 <= m_crc m < 4294967296 /\ desc_ok (m_desc m) (sp_csize m) (m_usize m).
